@@ -59,7 +59,13 @@ class StreamReader {
   }
 
   Status<void> Skip(std::size_t padding_bytes) {
-    stream_.seekg(padding_bytes, std::ios_base::cur);
+    // Consume the bytes instead of seeking: seeking past the end of the data
+    // is not reported as an error (a string stream only sets failbit, a file
+    // stream succeeds), which made truncated input look complete.
+    stream_.ignore(static_cast<std::streamsize>(padding_bytes));
+    if (static_cast<std::size_t>(stream_.gcount()) != padding_bytes)
+      return ErrorStatus::StreamError;
+
     return ReturnStatus();
   }
 
